@@ -55,7 +55,7 @@ class UnicodeSubset(MutableSet[CodePoint]):
         if not codepoints:
             self._codepoints = list()
         elif isinstance(codepoints, list):
-            self._codepoints = sorted(codepoints, key=code_point_order)
+            self._codepoints = list(iter_code_points(codepoints))
         elif isinstance(codepoints, UnicodeSubset):
             self._codepoints = codepoints._codepoints.copy()
         else:
